@@ -906,9 +906,10 @@ def overwrite_histories(rng: common.Rng, thorough: bool) -> list[list["Case"]]:
         seq = [("same", [e], [e.copy()]), ("moved", [e], [moved]), ("same-again", [e], [e.copy()]),
                ("reshaped", [e], [e.reshape(3, 2).copy()]), ("extra-output", [e], [e.copy(), e.copy()]),
                ("same-third", [e], [e.copy()]), ("moved-again", [e], [moved.copy()])]
-        if rng.chance(0.5):
-            seq = [seq[1], seq[0]] + seq[2:]            # start from a mismatching file that is then repaired
-        out.append([Case(x, g, 1e-3, 1e-5, tag=f"overwrite/{kind}/{i}-{name}") for i, (name, x, g) in enumerate(seq)])
+        out.append([Case(x, g, 1e-3, 1e-5, tag=f"overwrite/{kind}/A{i}-{name}") for i, (name, x, g) in enumerate(seq)])
+        # … and starting from a mismatching file that is then repaired
+        seq_b = [seq[1], seq[0], seq[3], seq[2]]
+        out.append([Case(x, g, 1e-3, 1e-5, tag=f"overwrite/{kind}/B{i}-{name}") for i, (name, x, g) in enumerate(seq_b)])
     return out
 
 
